@@ -288,7 +288,8 @@ def gen_op(rng, npool, isint, iscomplex, struct):
         # dtype promotion instead of "the result is in the space")
         op['stype'] = rng.choice(['np.int64', 'np.int32'] if isint else
                                  ['np.float64', 'np.float64', 'np.int64',
-                                  'np.complex128'])
+                                  'np.complex128', 'np.complex64',
+                                  'np.float32'])
     if struct != 'leaf' and 'x0' not in form and rng.random() < 0.25:
         # operate on the p-th *parts* of the containers (elements of the
         # component space that are at the same time parts of live containers)
@@ -457,6 +458,9 @@ def _as_numpy_scalar(v, stype, pool):
     hold it and the field of the space accepts it)."""
     iscomplex = np.dtype(pool.cfg['leaf']['dtype']).kind == 'c'
     if isinstance(v, complex):
+        if stype == 'np.complex64' and str(np.dtype(
+                pool.cfg['leaf']['dtype'])) == 'complex64':
+            return np.complex64(v)
         return np.complex128(v) if stype == 'np.complex128' else v
     if stype in ('np.int64', 'np.int32'):
         if float(v) != int(v):
@@ -466,6 +470,13 @@ def _as_numpy_scalar(v, stype, pool):
         return np.complex128(v) if iscomplex else v
     if pool.isint:
         return v
+    ldt = str(np.dtype(pool.cfg['leaf']['dtype']))
+    if stype == 'np.complex64':
+        # single precision scalars only on single precision spaces (whose
+        # tolerance covers arithmetic done on the scalars themselves)
+        return np.complex64(v) if ldt == 'complex64' else v
+    if stype == 'np.float32':
+        return np.float32(v) if ldt in ('float32', 'complex64') else v
     return getattr(np, stype[3:])(v)
 
 
